@@ -38,6 +38,8 @@ def cases(tier, seed):
     q = tier == "quick"
     for kind, env, extra in COMBOS:
         for n in ((6, 10) if q else (5, 6, 10, 20, 50)):
+            if kind == "matnet" and n > 30:
+                continue  # MatNet's one-hot column embedding needs embed_dim >= number of nodes (zoo networks are 32 wide)
             for r in range(2 if q else 10):
                 out.append(dict(policy=kind, env=env, n=n, m=6 if q else 8, s=rnd.randrange(10**6), wseed=r, extra=extra))
     for env in ("tsp", "cvrp", "pctsp", "pdp"):
